@@ -49,7 +49,8 @@ def improve_builtin_exceptions(exception):
     Returns:
         Exception: A new exception, or the original one unchanged.
     """
-    if isinstance(exception, BuiltinKeyError):
+    # Ask the type, not the object: a student's class may refuse attribute access
+    if issubclass(type(exception), BuiltinKeyError):
         return KeyError(exception, "key not found")
     return exception
 
@@ -58,7 +59,7 @@ def get_exception_name(exception: Exception) -> str:
     """
     Gets the name of the exception (e.g., IndexError gives ``"IndexError"``).
     """
-    return exception.__class__.__name__
+    return type(exception).__name__
 
 
 def add_context_to_error(e, message):
@@ -151,14 +152,20 @@ class ExpandedTraceback:
         while tb and self._is_relevant_tb_level(tb):
             tb = tb.tb_next
         length = self._count_relevant_tb_levels(tb)
-        tb_e = traceback.TracebackException(cl, self.exception, tb, limit=length,
-                                            capture_locals=False)
-        for frame in tb_e.stack:
+        try:
+            stack = traceback.TracebackException(cl, self.exception, tb, limit=length,
+                                                 capture_locals=False).stack
+        except Exception:
+            # The student's exception object may refuse to be inspected;
+            # only the frames are needed, so describe them around a stand-in
+            stack = traceback.TracebackException(Exception, Exception(), tb, limit=length,
+                                                 capture_locals=False).stack
+        for frame in stack:
             self._fix_frame_line(frame)
-        frames = list(tb_e.stack)
+        frames = list(stack)
         # A SyntaxError has to be handled differently to actually get its output:
         # https://docs.python.org/3/library/traceback.html#traceback.print_exception
-        if isinstance(self.exception, SyntaxError) and None not in (self.exception.lineno, self.exception.offset):
+        if issubclass(type(self.exception), SyntaxError) and None not in (self.exception.lineno, self.exception.offset):
             offset = self.exception.offset
             if IS_AT_LEAST_PYTHON_310 and not IS_SKULPT:
                 end_lineno = self.exception.end_lineno
